@@ -198,6 +198,15 @@ def run(tier, seed, replay):
     acc_sorted = sorted(acc, key=lambda k: (specs[k]["what"][0] == "table", k))     # directed rows first
     items = [("c%04d" % k, obs[k]["out_content"]) for k in acc_sorted][: (200 if tier == "quick" else 800)]
     errs, unstable, init_fail = codegen.compile_batch(items)
+    for name, txt in init_fail.items():
+        if name != "_batch":
+            k = int(name[1:])
+            out.violation("init-fails:" + specs[k]["what"][0], "the generated package fails when it is initialised: %s" % txt[-300:], common.slim(specs[k], obs[k]))
+        else:
+            out.broke("harness: C13 init batch", txt[-600:])
+    for name in unstable:
+        if name.startswith("c") and name[1:].isdigit():
+            out.violation("not-gofmt-stable:" + specs[int(name[1:])]["what"][0], "the generated file is not in gofmt form", common.slim(specs[int(name[1:])], obs[int(name[1:])]))
     for name, lines in errs.items():
         if name != "_batch":
             k = int(name[1:])
